@@ -3,8 +3,7 @@
 //! evaluated on the implementation's dumps of every (entity, version) read after every step.
 #[path = "c07/mvcc.rs"]
 mod mvcc;
-use mvcc::{parse, render, run_real, Op};
-use samyama::query::QueryEngine;
+use mvcc::{parse, render, Op};
 use serde_json::json;
 use vharness::{driver, Args, Known, Report, Rng};
 
@@ -361,7 +360,6 @@ fn main() {
         args.seed,
     );
     let exe = args.driver_exe("drv_mvcc");
-    let engine = QueryEngine::new();
 
     let mut seqs: Vec<Vec<Op>> = vec![];
     let mut n_corpus = 0;
@@ -424,7 +422,7 @@ fn main() {
             n_txn_script
         );
         let mut rng = Rng::new(args.seed);
-        let n_rand = if args.thorough() { 60_000 } else { 6_000 };
+        let n_rand = if args.thorough() { 60_000 } else { 4_000 };
         for _ in 0..n_rand {
             seqs.push(random_case(&mut rng));
         }
@@ -433,27 +431,8 @@ fn main() {
     let mut first_break: Option<String> = None;
     for chunk in seqs.chunks(100_000) {
         let rendered: Vec<String> = chunk.iter().map(|s| render(s)).collect();
-        let mut eng_bad: Vec<Option<String>> = vec![None; chunk.len()];
-        let real: Vec<String> = chunk
-            .iter()
-            .enumerate()
-            .map(|(k, s)| {
-                let mut em = None;
-                let r = std::panic::catch_unwind(std::panic::AssertUnwindSafe(|| {
-                    let mut em2 = None;
-                    let o = run_real(s, if k % 16 == 0 { Some(&engine) } else { None }, &mut em2);
-                    (o, em2)
-                }));
-                match r {
-                    Ok((o, e)) => {
-                        em = e;
-                        eng_bad[k] = em;
-                        o
-                    }
-                    Err(_) => "PANIC".to_string(),
-                }
-            })
-            .collect();
+        let ran = mvcc::run_all(chunk, 12, 16, false);
+        let real: Vec<&String> = ran.iter().map(|r| &r.0).collect();
         let mut lines = Vec::with_capacity(chunk.len() * 2);
         for (r, o) in rendered.iter().zip(real.iter()) {
             lines.push(format!("run {}", r));
@@ -463,7 +442,7 @@ fn main() {
         for (k, ops) in chunk.iter().enumerate() {
             let m = &replies[2 * k];
             let s = &replies[2 * k + 1];
-            let nt = mvcc::nontrivial(ops, false);
+            let nt = ran[k].2;
             rep.case(&rendered[k], nt);
             if nt && rep.samples.len() < 3 {
                 rep.sample(json!({"ops": rendered[k], "impl_obs_last": real[k].rsplit(';').next()}));
@@ -472,7 +451,7 @@ fn main() {
                 rep.count(&format!("op:{}", op.kind()));
             }
             let body = format!("ops {}\nimpl  {}\nmodel {}\nspec  {}", rendered[k], real[k], m, s);
-            if let Some(e) = &eng_bad[k] {
+            if let Some(e) = &ran[k].1 {
                 rep.count("spec_violation:scan:engine");
                 rep.spec_violation(&known, "scan:engine", &format!("query engine scan/count differs from the live nodes ({}) on `{}`", e, rendered[k]), &body);
             }
